@@ -50,7 +50,15 @@ type caseSpec struct {
 	AdvanceP float64 `json:"advance_p,omitempty"`
 	Index    int     `json:"index"`
 	Stream   string  `json:"stream"`
+	// Reuse: every client fetches into one workspace of its own, which therefore holds whatever its previous Fetch left
+	Reuse bool `json:"clients_reuse_their_workspace,omitempty"`
+	// Ignore: the caches are configured with a list of filesystem items to ignore (it concerns the listing of the cache
+	// entries); some stored versions hold entries with such names
+	Ignore string `json:"filesystem_items_to_ignore,omitempty"`
 }
+
+// ignoreList is the configured list of items to ignore of the cases which have one.
+const ignoreList = ".snapshot,.*~,lost\\+found"
 
 // makeVersion writes version v's source tree (every file embeds the version id; a manifest lists the files).
 func makeVersion(root string, v int) string {
@@ -73,6 +81,14 @@ func makeVersion(root string, v int) string {
 				files["dist/bundle.zip"] = string(b)
 			}
 		}
+	}
+	// entries named like items a cache may be told to ignore (network share snapshots, editor backups): part of the
+	// version like any other, and absent from the versions stored next
+	if v%3 == 1 {
+		files["data/.snapshot/state.txt"] = fmt.Sprintf("version=%d snapshot", v)
+		files[fmt.Sprintf("__snapshots__/s%d.json", v)] = fmt.Sprintf("{\"version\":%d}", v)
+		files["data/notes.txt~"] = fmt.Sprintf("version=%d backup", v)
+		files["lost+found/x"] = fmt.Sprintf("version=%d", v)
 	}
 	var names []string
 	for p := range files {
@@ -105,10 +121,12 @@ type world struct {
 	srcDir   map[int]string
 	mu       sync.Mutex
 	nextDest int
+	reuse    bool
+	ignore   string
 }
 
 func (x *world) cache(actor string) sharedcache.ISharedCacheRepository {
-	cfg := &sharedcache.Configuration{RemoteStoragePath: x.remote, Timeout: 2 * time.Second}
+	cfg := &sharedcache.Configuration{RemoteStoragePath: x.remote, Timeout: 2 * time.Second, FilesystemItemsToIgnore: x.ignore}
 	vfs := x.w.VFS(actor)
 	var c sharedcache.ISharedCacheRepository
 	var err error
@@ -139,6 +157,9 @@ func (x *world) newDest(actor string) string {
 	x.mu.Lock()
 	defer x.mu.Unlock()
 	x.nextDest++
+	if x.reuse {
+		return filepath.Join(x.root, "dest", "workspace-of-"+actor)
+	}
 	return filepath.Join(x.root, "dest", fmt.Sprintf("%s-%d", actor, x.nextDest))
 }
 
@@ -237,7 +258,7 @@ func runCase(r *vrun.Run, sc caseSpec) *result {
 	res.s = s
 	res.deadlock = sched.Bubble(func() {
 		w := lockh.NewWorld(filepath.Join(remote, key), "SharedMutableCache-"+key, s)
-		x := &world{w: w, root: root, remote: remote, kind: sc.Kind, versions: map[int]string{}, srcDir: map[int]string{}}
+		x := &world{w: w, root: root, remote: remote, kind: sc.Kind, versions: map[int]string{}, srcDir: map[int]string{}, reuse: sc.Reuse, ignore: sc.Ignore}
 		res.x = x
 		s.Run(func() {
 			ctx, cancel := context.WithTimeout(context.Background(), 60*time.Second)
@@ -438,6 +459,12 @@ func analyse(r *vrun.Run, res *result) {
 		}
 	}
 	r.ObsSet("cache_kinds", sc.Kind)
+	if sc.Reuse {
+		r.Obs("cases_whose_clients_fetch_into_the_workspace_of_their_previous_fetch", 1)
+	}
+	if sc.Ignore != "" {
+		r.Obs("cases_with_a_configured_list_of_items_to_ignore", 1)
+	}
 	nontrivial := false
 	switch sc.Mode {
 	case "fault":
@@ -676,6 +703,10 @@ func main() {
 	}
 	for i := range cases {
 		cases[i].Index = i
+		cases[i].Reuse = i%2 == 1
+		if i%3 == 1 {
+			cases[i].Ignore = ignoreList
+		}
 	}
 	r.Obs("fault_cases_enumerated", int64(nf))
 	vrun.Parallel(len(cases), 0, func(i int) { analyse(r, runCase(r, cases[i])) })
